@@ -617,6 +617,9 @@ class Module(ABC):
 
         Returns:
             View of the module at the specified branch location."""
+        if not is_str_all(at):
+            # Locations can also be ints (the end points 0 and 1) or single precision.
+            at = np.asarray(at, dtype=float).reshape(-1)
         global_comp_idxs = []
         for i in self._branches_in_view:
             ncomp = self.base.ncomp_per_branch[i]
